@@ -182,3 +182,21 @@ Fixpoint feval (e : fexpr) : res filt :=
   | FPow a n => bind (feval a) (fun f => fpow f n)
   | FCall a b => bind2 (feval a) (feval b) fsubst
   end.
+
+(* ------------------------------------------------------------------ linearize *)
+(* LinearFilter.linearize : the terms (power, coefficient) as numpoly.terms() / denpoly.terms() yield
+   them, powers possibly fractional.  A fractional power k is split between int(k) (truncation
+   towards zero) and int(k) + 1 with weights 1 - (k - int(k)) and k - int(k); the pairs are
+   accumulated in a dict ("if key in new_poly: += else: =") and the class is called on the two dicts. *)
+Definition fterms := list (Qc * Qc).
+Definition q_is_int (k : Qc) : bool := (Zpos (Qden (this k)) =? 1)%Z.
+Definition q_trunc (k : Qc) : Z := Z.quot (Qnum (this k)) (Zpos (Qden (this k))).
+Definition lin_pairs (k v : Qc) : list (Z * Qc) :=
+  if q_is_int k then [(q_trunc k, v)]
+  else let left := q_trunc k in
+       let weight_right := k - zq left in
+       let weight_left := 1 - weight_right in
+       [(left, v * weight_left); ((left + 1)%Z, v * weight_right)].
+Definition lin_poly (t : fterms) : poly :=
+  fold_left (fun d e => fold_left (fun d kv => od_add d (fst kv) (snd kv)) (lin_pairs (fst e) (snd e)) d) t [].
+Definition flinearize (tn td : fterms) : res filt := ctor (mk (lin_poly tn)) (mk (lin_poly td)).
